@@ -43,8 +43,10 @@ def explore_checked(ses, oid, run, hyps, *, function=None, allowed_exc=(), timeo
                 continue
             n_raise += 1
             # the path must be infeasible
-            exc_txt = f"{type(r.exc).__name__}: {str(r.exc)[:200]}"
-            ses.prove(
+            from .core import exc_text
+
+            exc_txt = exc_text(r.exc, 200)
+            ob = ses.prove(
                 f"{oid}/no-exception",
                 path_hyps(r.path),
                 z3.BoolVal(False),
@@ -53,6 +55,12 @@ def explore_checked(ses, oid, run, hyps, *, function=None, allowed_exc=(), timeo
                 replay=replay,
                 detail={"exception": exc_txt},
             )
+            if ob.status == "failed" and not (ob.replay or {}).get("confirmed_on_real_code"):
+                # the explored paths over-approximate the feasible ones (branches are taken unless refuted): an exception
+                # path that is neither refuted nor reproduced on the real code is an engine limit, decided by the stand-in
+                ob.status = "engine-limit"
+                ob.detail = {"reason": f"exception path neither refuted nor reproduced: {exc_txt}", "group": limit_group}
+                ob.replay = None
     if not results:
         ses.undecided(f"{oid}/paths", "no path explored", function=function)
     return ok
